@@ -41,6 +41,22 @@ def run(pid, tier, seed, replay):
            % (len(groups), sum(1 for g in groups if g["exotic"]), len(panics), dt))
     for c in panics:
         ck.fail_input("hashing panicked: " + c["why"][:300], {"group": c["id"], "exotic": c["exotic"], "harness_args": "--seed %s --n %s" % (seed, n)})
+    for w in [c for c in cases if c["k"] == "witness"]:
+        # Props/C12.v C12_encoded_values_null_refuted replayed on the implementation; the model predicts [23273] vs [0]
+        if w["logical_p"] != w["logical_q"]:
+            ck.problem("tie", "witness arrays are not logically equal: %s" % w)
+        if not w["ok"]:
+            ck.fail_input("a NULL stored inside the (encoded) values of a dictionary / run-end array hashes differently "
+                          "from the same NULL stored as a NULL key / NULL run when the column is not the first key column",
+                          {"key_columns": ["Int32 [NULL]", "Dictionary<Int32,Dictionary<Int32,Utf8>> [NULL]"],
+                           "second_column_p": "outer keys [0] -> inner dictionary keys [0] -> inner values [NULL]",
+                           "second_column_q": "outer keys [NULL] (same inner dictionary)",
+                           "with_hashes_p": w["hashes_p"], "with_hashes_q": w["hashes_q"]}, key=KEY_NESTED)
+            if w["hashes_p"] != [23273] or w["hashes_q"] != [0]:
+                ck.problem("tie", "witness: the model predicts [23273] and [0], the implementation gave %s and %s" % (w["hashes_p"], w["hashes_q"]))
+        else:
+            ck.notes.append("the refuted-theorem witness no longer reproduces on the implementation (hashes %s): the defect seems repaired; "
+                            "Model/HashLayout.v pnulls (physical validity of dictionary / run-end values) must follow" % w["hashes_p"])
     for g in groups:
         if not g["ok"]:
             case = {"key_column_types": g["shapes"], "logical_rows_per_column": g["logical"], "why": g["why"][:600],
